@@ -187,9 +187,28 @@ def rule_r1(rep, program: Program):
             else:
                 total = total + eval_expr(kw.get("n_iter"), {})
         if fast_def is not None:
-            ok = isinstance(fast_def, ast.DictComp) and any("is_fast" in norm(i) for c2 in ast.walk(fast_def) if isinstance(c2, ast.comprehension) for i in c2.ifs) and p_adapters in norm(fast_def)
-            r.inst({"stager": k.name, "fast_adapters": norm(fast_def)[:80]})
-            if not ok or any(norm(i).startswith("not ") for c2 in ast.walk(fast_def) if isinstance(c2, ast.comprehension) for i in c2.ifs):
+            # every element that reaches fast_adapters passes exactly the filter `<adapter>.is_fast`; the
+            # table may be a dict comprehension or be filled by a loop over adapters.items()
+            region = [fast_def]
+            if (isinstance(fast_def, ast.Dict) and not fast_def.keys) or (isinstance(fast_def, ast.Call) and norm(fast_def.func) == "dict" and not fast_def.args):
+                for lp in ast.walk(f.node):
+                    if isinstance(lp, ast.For) and any(isinstance(x, ast.Subscript) and norm(x.value) == "fast_adapters" and isinstance(x.ctx, ast.Store) for x in ast.walk(lp)) or (isinstance(lp, ast.For) and any(isinstance(x, ast.Call) and norm(x.func).startswith("fast_adapters[") for x in ast.walk(lp))):
+                        region.append(lp)
+            filters, sources = [], []
+            for node in region:
+                for c2 in ast.walk(node):
+                    if isinstance(c2, ast.comprehension):
+                        filters += c2.ifs
+                        sources.append(norm(c2.iter))
+                    if isinstance(c2, ast.For):
+                        sources.append(norm(c2.iter))
+                    if isinstance(c2, ast.If) and c2 is not node:
+                        filters.append(c2.test)
+            pos_fast = [t for t in filters if isinstance(t, ast.Attribute) and t.attr == "is_fast"]
+            other = [t for t in filters if t not in pos_fast]
+            ok = bool(pos_fast) and not other and any(p_adapters in s2 for s2 in sources)
+            r.inst({"stager": k.name, "fast_adapters": [norm(x)[:60] for x in region], "filters": [norm(t) for t in filters]})
+            if not ok:
                 r.violate(PROP, f"{k.name}.stages:fast_adapters", "fast_adapters is not the is_fast subset of the given adapters", node=fast_def, file=f.file)
         # ---- sum identity
         if window_loop_var is not None:
